@@ -264,42 +264,43 @@ func c01R1(p *Prog, r *Report) {
 		}
 	}
 	// (c) parameters in buildMethod: args = append(args, jen.Id(name).Add(type))
-	if fi := p.Func("generator.(*generator).buildMethod"); fi != nil {
-		info := fi.Pkg.TypesInfo
+	if region := p.Region("generator.(*generator).buildMethod"); region != nil {
 		n := 0
-		ast.Inspect(fi.Decl, func(nn ast.Node) bool {
-			as, ok := nn.(*ast.AssignStmt)
-			if !ok || len(as.Lhs) != 1 {
-				return true
-			}
-			id, ok := ast.Unparen(as.Lhs[0]).(*ast.Ident)
-			if !ok || id.Name != "args" {
-				return true
-			}
-			call, ok := ast.Unparen(as.Rhs[0]).(*ast.CallExpr)
-			if !ok {
-				return true
-			}
-			if b, ok := calleeObj(info, call).(*types.Builtin); !ok || b.Name() != "append" {
-				return true
-			}
-			for _, a := range call.Args[1:] {
-				ch, ok := chainOf(info, a)
-				if !ok || ch.Root != nil || ch.Links[0].Name != "Id" {
-					r.Bad("generator.(*generator).buildMethod/parameter", p.PosStr(a.Pos()), "emitted parameter is not jen.Id(name).Add(type)")
-					continue
+		for _, fi := range region {
+			info := fi.Pkg.TypesInfo
+			ast.Inspect(fi.Decl, func(nn ast.Node) bool {
+				as, ok := nn.(*ast.AssignStmt)
+				if !ok || len(as.Lhs) != 1 {
+					return true
 				}
-				n++
-				site := "generator.(*generator).buildMethod/declares param " + exprString(ch.Links[0].Args[0])
-				ok2, how := nameOriginOK(p, fi, ch.Links[0].Args[0], reserved, 0)
-				if ok2 {
-					r.OK(site, p.PosStr(a.Pos()), how)
-				} else {
-					r.Bad(site, p.PosStr(a.Pos()), how)
+				id, ok := ast.Unparen(as.Lhs[0]).(*ast.Ident)
+				if !ok || !strings.Contains(info.TypeOf(id).String(), "jen.Code") {
+					return true
 				}
-			}
-			return true
-		})
+				call, ok := ast.Unparen(as.Rhs[0]).(*ast.CallExpr)
+				if !ok {
+					return true
+				}
+				if b, ok := calleeObj(info, call).(*types.Builtin); !ok || b.Name() != "append" {
+					return true
+				}
+				for _, a := range call.Args[1:] {
+					ch, ok := chainOf(info, a)
+					if !ok || ch.Root != nil || ch.Links[0].Name != "Id" || len(ch.Links) < 2 || ch.Links[1].Name != "Add" {
+						continue // not a `name type` parameter emission
+					}
+					n++
+					site := "generator.(*generator).buildMethod/declares param " + exprString(ch.Links[0].Args[0])
+					ok2, how := nameOriginOK(p, fi, ch.Links[0].Args[0], reserved, 0)
+					if ok2 {
+						r.OK(site, p.PosStr(a.Pos()), how)
+					} else {
+						r.Bad(site, p.PosStr(a.Pos()), how)
+					}
+				}
+				return true
+			})
+		}
 		if n < 3 {
 			r.Unresolved("parameter emissions in buildMethod")
 		}
